@@ -1,11 +1,14 @@
 --------------------------- MODULE LinkResyncGen ---------------------------
 (* Schedule generator for the link-level part of C03: LinkResync + a history *)
-(* of the environment's choices (offer an HTLC, batch tick, deliver the next *)
-(* message to a link, start a cooperative close, drop the connection).  One  *)
+(* of the environment's choices (offer an HTLC - exit hop settles / fails /  *)
+(* hold invoice, also while the link cannot take it -, batch tick, deliver   *)
+(* the next message to a link, start a cooperative close, the fee estimator  *)
+(* reports a new rate to the initiator, the registry settles / cancels a     *)
+(* hold invoice, drop the connection).  One                                  *)
 (* NDJSON file per simulated behaviour; the orchestrator appends a Drain     *)
 (* step (deliver / tick until nothing is left to do).                        *)
 EXTENDS LinkResync, Json
-CONSTANTS MaxLen, AddPct, ShutPct, FlapPct
+CONSTANTS MaxLen, AddPct, ShutPct, FlapPct, FeePct, RefusedPct, DecidePct
 VARIABLES hist, steps
 
 Ev(a, p, x, y) == [a |-> a, p |-> p, x |-> x, y |-> y]
@@ -15,10 +18,14 @@ GInit == Init /\ hist = <<Ev("Cfg", "A", 0, 0)>> /\ steps = 0
 \* (simulation only: RandomElement thins out the rarer choices so that they are spread over the behaviour)
 Pct(n) == RandomElement(1..100) <= n
 GStep ==
-  \/ \E p \in P, kind \in {0, 1} : Pct(AddPct) /\ Len(pays) < MaxAdds /\ sd[p].reest /\ ~sd[p].outBlk /\ Add(p, kind) /\ Rec(Ev("Add", p, kind, 0))
+  \/ \E p \in P, kind \in Kinds : Pct(AddPct) /\ Len(pays) < MaxAdds /\ sd[p].reest /\ ~sd[p].outBlk /\ Add(p, kind) /\ Rec(Ev("Add", p, kind, 0))
+  \/ \E p \in P : Pct(RefusedPct) /\ Len(pays) < MaxAdds /\ (~sd[p].reest \/ sd[p].outBlk) /\ Add(p, 1) /\ Rec(Ev("Add", p, 1, 0))
+  \/ \E i \in 1..Len(pays), d \in {0, 1} : Pct(DecidePct) /\ pays[i].inv = "accepted"
+                                            /\ Decide(i, IF d = 1 THEN "settled" ELSE "canceled") /\ Rec(Ev("Decide", O(pays[i].p), i, d))
   \/ \E p \in P : Active(sd, p) /\ (sd[p].hasRp => Pct(25)) /\ Tick(p) /\ Rec(Ev("Tick", p, 0, 0))
   \/ \E p \in P : q[O(p)] # <<>> /\ Deliver(p) /\ Rec(Ev("Deliver", p, 0, 0))
   \/ \E p \in P : Pct(ShutPct) /\ NShut < MaxShut /\ sd[p].reest /\ ~sd[p].shut /\ Shutdown(p) /\ Rec(Ev("Shutdown", p, 0, 0))
+  \/ \E x \in FeeRates : Pct(FeePct) /\ nfee < MaxFees /\ sd.A.reest /\ Fee(x) /\ Rec(Ev("Fee", "A", x, 0))
   \/ Pct(FlapPct) /\ nflap < MaxFlaps /\ Flap /\ Rec(Ev("Flap", "", 0, 0))
 \* (a padding step keeps a behaviour that has nothing left to do alive until it is dumped)
 GNext == /\ steps < MaxLen
